@@ -390,6 +390,16 @@ def with_prefix(w, prefix):
     return w
 
 
+def two_block_seed(depth):
+    """Two composite product spaces: a vector-level polarization pair and a pure matrix-level (Fock, custom) pair."""
+    tb = W3({"A.f": 1, "A.p": "R", "B.p": "V"})
+    tb["prefix"] = [["op", "ce:h1", ["A.p", "B.p"], "CX", None], ["ce_combine", "h1", ["A.f", "Q"]], ["expand", "state", ["A.f"]]]
+    tb2 = W3({"A.f": 1, "A.p": "R", "B.p": "V"}, contraction=False)
+    tb2["prefix"] = [["ce_combine", "h1", ["A.f", "Q"]], ["op", "ce:h1", ["A.p", "B.p"], "CX", None], ["expand", "state", ["A.p"]],
+                     ["set_contraction", True]]
+    return [("W3/two-blocks-VM", tb, depth), ("W3/two-blocks-MV", tb2, depth)]
+
+
 def weak_seed(depth):
     """Fock space weakly entangled with its polarization: sqrt(1-eps)|0,H> + sqrt(eps)|2,V>, eps = 2e-5."""
     wk = W3({"A.f": 0, "A.f.dim": 4, "A.p": "H"})
@@ -477,6 +487,9 @@ def get(name, tier, seed):
             F5 = focks(m)
             if F5:
                 acts.append(["measure", "state", [F5[0]], True, True])      # partner polarization survives its envelope
+                h5 = first_handle(m, [F5[0]])
+                if h5:
+                    acts.append(["measure", "ce:" + h5, [F5[0]], True, True])   # ... and its envelope is retired by the composite
             return acts
         return {**base, "prop": "C05", "worlds": (quick_w3(1) + SEEDS_W1[:2] if q else SEEDS_W3 + SEEDS_W1) + rich_seeds(1 if q else 2),
                 "core": core5, "probes": probes_measure(seed), "depth": 2 if q else 3, "continuation": True}
@@ -499,7 +512,7 @@ def get(name, tier, seed):
     if name == "C20":
         wide = union(probes_single_ops(seed, full=False), probes_composite_ops(seed), probes_kraus(seed),
                      probes_structural(seed, 2), probes_measure(seed, 2), probes_resize(seed))
-        return {**base, "prop": "C20", "worlds": (SEEDS_W3[:2] if q else SEEDS_W3) + rich_seeds(1 if q else 2),
+        return {**base, "prop": "C20", "worlds": (SEEDS_W3[:2] if q else SEEDS_W3) + rich_seeds(1 if q else 2) + two_block_seed(0 if q else 1),
                 "core": core, "probes": wide, "depth": 1 if q else 2}
     if name == "C13":
         def core13(m, w, o):
